@@ -89,6 +89,7 @@ fn main() {
         let mut fixed: Vec<Recipe> = Recipe::always_dangling();
         fixed.extend(Recipe::always_diverge());
         fixed.extend(Recipe::always_isolated());
+        fixed.extend(Recipe::always_uaf());
         let n_fixed = fixed.len();
         for i in 0..n_inputs + n_fixed {
             let rc = if i < n_fixed {
